@@ -58,6 +58,7 @@ func runC16(c *Ctx) {
 	c.rule("addr-guard", "every reflect.Value.Addr in the decoders, manglers, parsers and wrappers has a receiver that is addressable by construction (reflect.New(T).Elem(), a field or element of such, the successful result of a repository function that only returns such values) or under a CanAddr test", 6)
 	c.rule("anon-struct-only", "the anonymous-flatten mangler strips the pointer of an embedded field (Mangle) and rebuilds it through the NumField-calling helper (Unmangle) only under a test that the pointee is a struct; both directions agree", 3)
 	c.rule("wrong-error-returned", "(contradiction rule, whole repository) no return inside the failure branch of one error hands back a different error value that is known nil on that path (a wrong-variable slip that turns a detected failure into (nil, nil), which the caller then indexes or dereferences)", 1)
+	c.rule("value-after-error-check", "the reflect.Value a repository function returns together with an error is the receiver of a reflect.Value method (IsValid apart) only where that error is known nil (with an error comes the zero Value, on which every method panics)", 3)
 	c.rule("map-results-made", "the map-returning functions of the parse package return, with a nil error, only make-built maps (the flag helpers assign into the parsed map on a later Set; a nil map would panic)", 3)
 	c.rule("loop-progress", "every loop that is not a range loop in parse, caseconversion, transform, helper, ptrify has a recognised progress argument (counted index, scanner advance, type/value descent, map iterator, shrinking string over non-empty constants, channel drain)", 8)
 
@@ -153,6 +154,7 @@ func runC16(c *Ctx) {
 		}
 	}
 	c16ValidOnSuccess(c)
+	c16ValueAfterErrorCheck(c, "value-after-error-check")
 	c16Loops(c)
 }
 
@@ -468,6 +470,31 @@ func c16TagInvariant(c *Ctx, f *ssa.Function, pn *ssa.Panic) {
 							setKeys[s] = true
 						} else if _, ok := loadOfTypeField(k, "transform.FlattenMangler", "tag"); ok {
 							setKeys["<flatten.tag>"] = true
+						} else if prm, ok := k.(*ssa.Parameter); ok && prm.Parent() == gt {
+							// the tag name handed in by the callers (the method made a function): every call site passes
+							// the mangler's own tag
+							pi, sites, all := -1, 0, true
+							for i, q := range gt.Params {
+								if q == prm {
+									pi = i
+								}
+							}
+							for _, g := range w.funcsIn("transform") {
+								for _, cs := range callsToFn(g, gt) {
+									sites++
+									args := cs.Common().Args
+									if pi < 0 || pi >= len(args) {
+										all = false
+										continue
+									}
+									if _, ok := loadOfTypeField(args[pi], "transform.FlattenMangler", "tag"); !ok {
+										all = false
+									}
+								}
+							}
+							if sites > 0 && all {
+								setKeys["<flatten.tag>"] = true
+							}
 						}
 					}
 				}
